@@ -167,7 +167,10 @@ def words_for(seed, n, known, ck, k, lang='english'):
     else:
         words = [rng.choice(wl) for _ in range(n)]
     if not known:
-        u = UNKNOWN[rng.randrange(len(UNKNOWN))]
+        import unicodedata
+        nwl = {unicodedata.normalize('NFKD', w) for w in wl}
+        cands = [u for u in UNKNOWN if unicodedata.normalize('NFKD', u) not in nwl]      # unknown in this language under any spelling of its letters
+        u = cands[rng.randrange(len(cands))]
         assert u not in wl
         words = list(words)
         words[rng.randrange(n)] = u
